@@ -28,6 +28,7 @@ REVIEWED = {
     "<minijinja::value::merge_object::MergeSeq as minijinja::value::object::Object>::get_value|Overflow:Sub":
         "idx - current_idx under `idx < current_idx + len` with current_idx <= idx (loop invariant)",
     "minijinja::filters::builtins::batch|DivisionByZero": "divisor `count` is tested against 0 at function entry",
+    "minijinja::formatting::FormatSpec::group|RemainderByZero": "group_size is the constant 3 or 4 at both call sites",
     "minijinja::filters::builtins::batch|Overflow:Sub": "count - tmp.len(): tmp never holds more than count items",
     "minijinja::filters::builtins::slice|Overflow:Mul": "slice * items_per_slice <= len (items_per_slice = len / count)",
     "minijinja::filters::builtins::slice|Overflow:Add": "offset + slice * items_per_slice <= len; slice + 1 <= count <= 100000",
@@ -85,6 +86,13 @@ def run(ctx):
     check_unwraps(ctx, ctx.program("MAX"))
     from .c01_index import check_indexing
     check_indexing(ctx, ctx.program("MAX"))
+    # P10: the interpreter's unsigned counters (`outer_stack_depth -= delta`, `BlockStack::depth.checked_sub(1).unwrap()`)
+    # are only decremented after the matching increment succeeded on the same path
+    from .pairs import check_closers, C as _C
+    n10 = check_closers(ctx, ctx.program("MAX"), "", "C01.P10.counter-decrement-follows-its-increment",
+                        only=(_C + "decr_depth", "minijinja::vm::state::BlockStack::pop"),
+                        why=": the unsigned counter underflows (a panic with overflow checks, a wrapped recursion depth without)")
+    ctx.floor("C01.P10 decrement sites of interpreter counters", n10, 4)
     for cname in ctx.configs():
         prog = ctx.program(cname)
         tag = "" if cname == "MAX" else "[%s]" % cname
@@ -190,6 +198,9 @@ def run(ctx):
             for bb, kind, descs, ops in hz:
                 n3 += 1
                 if taint.wide_arithmetic(f, f.term(bb)):
+                    ndis += 1
+                    continue
+                if kind.startswith(("DivisionByZero", "RemainderByZero")) and taint.nonzero_guard(f, bb, taint.divisor_of(f, f.term(bb))):
                     ndis += 1
                     continue
                 key = "%s|%s" % (f.path, kind)
